@@ -15,7 +15,8 @@ BOUNDS = {
              "(child attachment 3x3, upward connection of both candidate parents incl. detached chains and two IRs; module list: 3 modules x 3 owners x 2 orders) "
              "x every operation of the relation's alphabet (child-side assignment, add/discard/remove/pop/clear/update(1,2 iterables)/|= -= &= ^=, constructors with "
              "parent= and children=; list: append/insert/extend/+=/del/slice del/item and slice assignment/remove/pop/reverse/clear) = 23 841 scenarios; "
-             "equal-UUID twin IRs; argument aliasing",
+             "equal-UUID twin IRs; argument aliasing; K = 2 slices: (module list) an inserting operation then any operation; (set relations) a parent-side insertion "
+             "(add, |=, update, ^=) then any operation, from 9 pre-state shapes",
     "thorough": "as quick plus every pair of operations (K = 2) for the set relations on a reduced shape set",
 }
 
